@@ -40,6 +40,14 @@ def from_builder(F, fn, v):
     v = prov.strip(v, names=set())
     if v[0] == 'call' and v[1].get('name') in ('unwrap_or', 'unwrap_or_default') and v[2]:
         v = prov.strip(v[2][0], names=set())
+    elif v[0] == 'phi' and len(v[1]) == 2:
+        # the same written as a match: `match x.od_ok { Some(v) => v, None => 0.0 }` = phi(const | (x.od_ok as Some).0)
+        alts_ = [prov.strip(a_, names=set()) for a_ in v[1]]
+        nc = [a_ for a_ in alts_ if a_[0] != 'const']
+        if len(nc) == 1 and nc[0][0] == 'field' and nc[0][2] == '0':
+            inner_ = prov.strip(nc[0][1], names=set())
+            if inner_[0] == 'variant' and inner_[2] == 'Some':
+                v = prov.strip(inner_[1], names=set())
     path = []
     while v[0] == 'field':
         path.append(v[2])
@@ -77,22 +85,41 @@ def run(ctx):
         ctx.saw(f)
     # ---- R1
     P = prov.prov_of(build)
-    calls = [(bi, t) for bi, t in build.calls() if t['func'].get('name') == 'hit_windows' and t['func'].get('impl_adt') == B]
+    # `hit_windows()` may be a thin wrapper of a private core (`self.hit_windows_at(<resolved clock rate>)`): build() calling that core on `self`
+    # with the very same argument expressions over `self` is the same call
+    import combin as _cb
+    HW_NAMES = ['hit_windows']
+    core_sig = None
+    _hrv = prov.strip(prov.prov_of(hw).return_value(), names=set())
+    if _hrv[0] == 'call' and _hrv[1].get('impl_adt') == B and _hrv[1].get('local') and _hrv[2] and \
+            as_param_path(_hrv[2][0], through_calls=False) == (1, ()):
+        _core = F.fn(_hrv[1].get('path') or '')
+        if _core is not None and not str(_core.j.get('vis')).startswith('Public'):
+            core_sig = (_hrv[1]['name'], [prov.show(_cb.expand(F, a_), maxdepth=10) for a_ in _hrv[2][1:]])
+            ctx.saw(_core)
+
+    def _is_hw_call(name, args):
+        if name == 'hit_windows':
+            return True
+        return core_sig is not None and name == core_sig[0] and [prov.show(_cb.expand(F, a_), maxdepth=10) for a_ in args[1:]] == core_sig[1]
+    calls = [(bi, t) for bi, t in build.calls() if t['func'].get('impl_adt') == B and _is_hw_call(t['func'].get('name'), P.call_args(bi))]
+    if core_sig is not None:
+        HW_NAMES.append(core_sig[0])
     good = len(calls) == 1 and as_param_path(P.call_args(calls[0][0])[0], through_calls=False) == (1, ())
     ctx.require(good, 'C17-R1', 'build:one-hit_windows', 'build() calls self.hit_windows() exactly once on the unmodified builder', build.where(),
                 bad='build() calls hit_windows %d time(s) / not on `self` itself' % len(calls))
     rv = prov.prov_of(build).return_value()
     # private helper methods of the builder (`self.resolve_hp()`) are read through; hit_windows() and the setters are anchors and stay calls
-    PRIVATE = lambda f_: (f_.get('impl_adt') or '') == B and f_.get('name') not in ('hit_windows', 'build', 'difficulty', 'new', 'map', 'mode') + ATTRS4  # noqa: E731
+    PRIVATE = lambda f_: (f_.get('impl_adt') or '') == B and f_.get('name') not in tuple(HW_NAMES) + ('build', 'difficulty', 'new', 'map', 'mode') + ATTRS4  # noqa: E731
     rv = prov.inline_all(F, rv, depth=2, _seen=(build.path,), only=PRIVATE)
     hwv = prov.strip(prov.project_field(rv, 'hit_windows'), names=set())
-    ctx.require(hwv[0] == 'call' and hwv[1].get('name') == 'hit_windows' and as_param_path(hwv[2][0], through_calls=False) == (1, ()),
+    ctx.require(hwv[0] == 'call' and _is_hw_call(hwv[1].get('name'), hwv[2]) and as_param_path(hwv[2][0], through_calls=False) == (1, ()),
                 'C17-R1', 'build:embeds', 'BeatmapAttributes.hit_windows = self.hit_windows()', build.where(),
                 bad='BeatmapAttributes.hit_windows is `%s`, not the value returned by self.hit_windows()' % prov.show(hwv, maxdepth=4))
     for out, src in (('ar', 'ar'), ('od', 'od_great')):
         v = prov.project_field(rv, out)
         hit = any(n[0] == 'field' and n[2] == src and prov.strip(n[1], names=set())[0] == 'call' and
-                  prov.strip(n[1], names=set())[1].get('name') == 'hit_windows' for n in prov.walk(v, limit=2000))
+                  _is_hw_call(prov.strip(n[1], names=set())[1].get('name'), prov.strip(n[1], names=set())[2]) for n in prov.walk(v, limit=2000))
         ctx.require(hit, 'C17-R1', 'build:%s' % out, 'BeatmapAttributes.%s is derived from hit_windows().%s' % (out, src), build.where(),
                     bad='BeatmapAttributes.%s is not derived from the %s field of hit_windows()' % (out, src))
     # ---- R2
@@ -172,7 +199,9 @@ def run(ctx):
         ctx.require(getters == {getter}, 'C17-R3', 'difficulty:' + fld, 'builder.%s <- difficulty.%s()' % (fld, getter), diff.where(),
                     bad='BeatmapAttributesBuilder::difficulty fills `%s` from %s' % (fld, sorted(getters)))
     # ---- R4 triangle
-    hwr = prov.inline_all(F, prov.prov_of(hw).return_value(), depth=2, _seen=(hw.path,), only=PRIVATE)
+    # hit_windows() itself is read through its private core, if it has one
+    PRIVATE_HW = lambda f_: PRIVATE(f_) or ((f_.get('impl_adt') or '') == B and core_sig is not None and f_.get('name') == core_sig[0])  # noqa: E731
+    hwr = prov.inline_all(F, prov.prov_of(hw).return_value(), depth=2, _seen=(hw.path,), only=PRIVATE_HW)
     for x in ATTRS4:
         setter = F.method(B, x, inherent_only=True)
         if setter is None:
